@@ -118,7 +118,8 @@ def stepVF (op implObs : String) : String × List String × List String :=
   let items : List (Piece Nat × Option Bytes) := (List.range kinds.length).zip kinds |>.map fun (i, (l, k)) =>
     let p : Piece Nat := { length := l, secs := [], hash := i + 1 }
     let data : Bytes := (List.replicate l (if k = "g" then i + 1 else 0))
-    (p, if k = "e" then none else some data)
+    -- (a short read — kind t — is a read error like any other)
+    (p, if k = "e" ∨ k = "t" then none else some data)
   let H : Bytes → Nat := fun b => b.headD 0
   let (bits, e) := verifyAll H items
   let showBits (bs : List Bool) := String.join (bs.map boolStr)
